@@ -18,3 +18,5 @@ def run(rep: Report, repo: Repo, tier: str) -> None:
     protocol.rule_no_crash(rep, repo, "C05-R5")
     tables.rule_dispatch_signatures(rep, repo, "C05-R5s")
     misc_rules.rule_runtime_pin(rep, repo, "C05-R6")
+    # CMake command names are case-insensitive: FUNCTION() and function() are the same invocation
+    misc_rules.rule_case_folding(rep, repo, "C05-R7")
